@@ -20,12 +20,13 @@ Definition as_skey (s : sx) : option skey :=
 Definition as_op (s : sx) : option op :=
   match s with
   | SL [SB k; a] =>
-    if is_sym "write" k then option_map OWrite (as_rgs a) else
     if is_sym "append" k then option_map OAppend (as_rgs a) else
     if is_sym "overwrite" k then option_map OOverwrite (as_rgs a) else None
   | SL [SB k; a; b] =>
     if is_sym "remove" k then
       match as_list_of as_nat a, as_bool b with Some sel, Some sp => Some (ORemove sel sp) | _, _ => None end
+    else if is_sym "write" k then
+      match as_N a, as_rgs b with Some sch, Some r => Some (OWrite sch r) | _, _ => None end
     else None
   | SL [SB k; a; b; c] =>
     if is_sym "writergs" k then
@@ -38,12 +39,14 @@ Definition sx_rows (r : rows) : sx := slist sN r.
 Definition sx_files (l : list (path * rows)) : sx := slist (fun e => SL [SB (fst e); sx_rows (snd e)]) l.
 
 (* one record per step:
-   (accepted dir summary num_rows check_inv read spec_defined spec_state) *)
+   (accepted dir summary num_rows check_inv read abs spec_state schema partitioned);
+   a file of `dir` is listed with its content = schema id :: row ids *)
 Definition sx_state (acc : bool) (s : state) (sp : option sstate) : sx :=
   SL [sbool acc; sx_files (st_dir s); sx_files (st_sum s); SZ (st_num s); sbool (check_inv s);
       slist (fun kr => SL [SB (fst kr); sopt sx_rows (snd kr)]) (read s);
       sx_files (abs s);
-      match sp with Some a => SL [sx_files a] | None => SL [] end].
+      match sp with Some a => SL [sx_files a] | None => SL [] end;
+      sN (st_sch s); sopt sbool (st_part s)].
 
 Fixpoint hist (sortp : state -> option state) (ops : list op) (s : state) (a : option sstate) : list sx :=
   match ops with
